@@ -260,3 +260,66 @@ func refactorTest(mode string, args []string) int {
 	}
 	return 0
 }
+
+// allProps: see main.go.
+func allProps() int {
+	c, err := load(repoDir(), nil, "")
+	if err != nil {
+		fmt.Printf("CANNOT load: %v\n", err)
+		return 2
+	}
+	known := readKnown(filepath.Join(verifDir(), "known-findings.txt"))
+	var ids []string
+	for id := range props {
+		ids = append(ids, id)
+	}
+	sort.Strings(ids)
+	bad := 0
+	for _, id := range ids {
+		before := len(c.Obs)
+		c.Prop, c.Tier = id, "quick"
+		func() {
+			defer func() {
+				if rec := recover(); rec != nil {
+					c.undecided(id+".PANIC", "checker", fmt.Sprint(rec))
+				}
+			}()
+			props[id].Run(c)
+		}()
+		var lines []string
+		for _, o := range c.Obs[before:] {
+			if o.st == OK {
+				continue
+			}
+			isKnown := false
+			if o.st == Viol {
+				for _, k := range known {
+					if k.Prop == id && id+"."+k.Rule == o.Rule && k.Construct == o.Construct {
+						isKnown = true
+					}
+				}
+			}
+			if !isKnown {
+				d := o.Detail
+				if len(d) > 200 {
+					d = d[:200]
+				}
+				lines = append(lines, fmt.Sprintf("  %s %s [%s] at %s: %s", o.Status, o.Rule, o.Construct, o.Pos, d))
+			}
+		}
+		if len(lines) > 0 {
+			bad++
+			sort.Strings(lines)
+			fmt.Printf("== %s rc=1\n", id)
+			for i, l := range lines {
+				if i < 8 {
+					fmt.Println(l)
+				}
+			}
+		}
+	}
+	if bad > 0 {
+		return 1
+	}
+	return 0
+}
